@@ -9,8 +9,9 @@
 // the requested letter case with a value below the radix (0-9, a-z / A-Z by explicit range tests); read as a positional
 // numeral (value := value * radix + digit, left to right) it is the number; it has no leading '0' unless it is "0".
 //
-// Bound: radix in {2, 4, 8, 16, 32}; every Word (PreparedWord), every DoubleWord above Word::MAX (PreparedDword),
-// 3-word numbers with two fully symbolic low words and a top word from a concrete palette (PreparedLarge).
+// Bound: radix in {2, 4, 8, 16, 32}.  new(): every Word / every DoubleWord above Word::MAX (complete).  write(): words and
+// double words with a literal number of digits (all values with that many digits), 3-word numbers with two fully
+// symbolic low words and a top word from a literal palette (PreparedLarge::{new, width, write}).
 use super::*;
 #[allow(unused_imports)]
 use crate::radix::DigitCase;
@@ -91,63 +92,105 @@ fn vk_fp2_check<const N: usize>(sink: &VkSink, width: usize, l: u32, upper: bool
     assert!(width == 1 || sink.buf[0] != 48);
 }
 
+// ---- width: PreparedWord::new / PreparedDword::new compute the number of digits (no writer involved; complete) ----
+// oracle: the number of digits of x in radix 2^l is the least w >= 1 with x < 2^(l*w)
+
+fn vk_fp2_digits_u128(x: u128, l: u32) -> usize {
+    let mut w = 1usize;
+    let mut k = 1u32;
+    while k < 128 {
+        // x >= 2^(l*k)  ==>  more than k digits
+        if l * k < 128 && (x >> (l * k)) != 0 {
+            w = k as usize + 1;
+        }
+        k += 1;
+    }
+    w
+}
+
 #[cfg_attr(kani, kani::proof)]
 #[cfg_attr(not(kani), test)]
-#[cfg_attr(kani, kani::unwind(66))]
-fn vk_int_fmt_p2_word() {
+#[cfg_attr(kani, kani::unwind(130))]
+fn vk_int_fmt_p2_word_new() {
     let word: Word = any();
     let sel: u8 = any();
-    let upper: bool = any();
     assume(sel <= 4);
     let (radix, l) = vk_fp2_radix(sel);
-    // letters are only needed (and only then is the case meaningful) above radix 10
-    let case = if radix <= 10 {
-        DigitCase::NoLetters
-    } else if upper {
-        DigitCase::Upper
-    } else {
-        DigitCase::Lower
-    };
-    let mut sink = VkSink { buf: [0; VK_CAP], len: 0 };
-    let mut prepared = PreparedWord::new(word, radix);
-    let width = prepared.width();
-    {
-        let mut dw = DigitWriter::new(&mut sink, case);
-        assert!(prepared.write(&mut dw).is_ok());
-        assert!(dw.flush().is_ok());
-    }
-    vk_fp2_check::<64>(&sink, width, l, upper, [word, 0, 0]);
+    let p = PreparedWord::new(word, radix);
+    assert!(p.word == word && p.log_radix == l);
+    assert!(p.width() == vk_fp2_digits_u128(word as u128, l));
     cover();
 }
 
 #[cfg_attr(kani, kani::proof)]
 #[cfg_attr(not(kani), test)]
 #[cfg_attr(kani, kani::unwind(130))]
-fn vk_int_fmt_p2_dword() {
+fn vk_int_fmt_p2_dword_new() {
     let dword: DoubleWord = any();
     let sel: u8 = any();
-    let upper: bool = any();
     assume(sel <= 4);
     assume(dword > Word::MAX as DoubleWord); // precondition (debug_assert) of PreparedDword::new
     let (radix, l) = vk_fp2_radix(sel);
-    let case = if radix <= 10 {
-        DigitCase::NoLetters
-    } else if upper {
-        DigitCase::Upper
-    } else {
-        DigitCase::Lower
-    };
-    let mut sink = VkSink { buf: [0; VK_CAP], len: 0 };
-    let mut prepared = PreparedDword::new(dword, radix);
-    let width = prepared.width();
-    {
-        let mut dw = DigitWriter::new(&mut sink, case);
-        assert!(prepared.write(&mut dw).is_ok());
-        assert!(dw.flush().is_ok());
-    }
-    vk_fp2_check::<128>(&sink, width, l, upper, [dword as u64, (dword >> 64) as u64, 0]);
+    let p = PreparedDword::new(dword, radix);
+    assert!(p.dword == dword && p.log_radix == l);
+    assert!(p.width() == vk_fp2_digits_u128(dword, l));
     cover();
 }
+
+// ---- write: a prepared word / double word with a LITERAL width (a symbolic width makes every buffer offset of the
+// DigitWriter symbolic: no result in 400 s); the value is symbolic with exactly that many digits
+macro_rules! vk_fmt_p2_word_write {
+    ($name:ident, $radix:expr, $l:expr, $case:expr, $upper:expr, $width:expr) => {
+        #[cfg_attr(kani, kani::proof)]
+        #[cfg_attr(not(kani), test)]
+        #[cfg_attr(kani, kani::unwind(66))]
+        fn $name() {
+            let word: Word = any();
+            // exactly $width digits
+            assume($width == 1 || (word >> ($l * ($width - 1))) != 0);
+            assume($l * $width >= 64 || (word >> (($l * $width) % 64)) == 0);
+            let mut sink = VkSink { buf: [0; VK_CAP], len: 0 };
+            let mut prepared = PreparedWord { word, log_radix: $l, width: $width };
+            {
+                let mut dw = DigitWriter::new(&mut sink, $case);
+                assert!(prepared.write(&mut dw).is_ok());
+                assert!(dw.flush().is_ok());
+            }
+            vk_fp2_check::<64>(&sink, $width, $l, $upper, [word, 0, 0]);
+            cover();
+        }
+    };
+}
+vk_fmt_p2_word_write!(vk_int_fmt_p2_word_write_r16_w1, 16, 4, DigitCase::Lower, false, 1);
+vk_fmt_p2_word_write!(vk_int_fmt_p2_word_write_r16_w16, 16, 4, DigitCase::Upper, true, 16);
+vk_fmt_p2_word_write!(vk_int_fmt_p2_word_write_r2_w64, 2, 1, DigitCase::NoLetters, false, 64);
+vk_fmt_p2_word_write!(vk_int_fmt_p2_word_write_r8_w22, 8, 3, DigitCase::NoLetters, false, 22);
+vk_fmt_p2_word_write!(vk_int_fmt_p2_word_write_r32_w13, 32, 5, DigitCase::Lower, false, 13);
+
+macro_rules! vk_fmt_p2_dword_write {
+    ($name:ident, $radix:expr, $l:expr, $case:expr, $upper:expr, $width:expr) => {
+        #[cfg_attr(kani, kani::proof)]
+        #[cfg_attr(not(kani), test)]
+        #[cfg_attr(kani, kani::unwind(130))]
+        fn $name() {
+            let dword: DoubleWord = any();
+            assume((dword >> ($l * ($width - 1))) != 0);
+            assume($l * $width >= 128 || (dword >> (($l * $width) % 128)) == 0);
+            let mut sink = VkSink { buf: [0; VK_CAP], len: 0 };
+            let mut prepared = PreparedDword { dword, log_radix: $l, width: $width };
+            {
+                let mut dw = DigitWriter::new(&mut sink, $case);
+                assert!(prepared.write(&mut dw).is_ok());
+                assert!(dw.flush().is_ok());
+            }
+            vk_fp2_check::<128>(&sink, $width, $l, $upper, [dword as u64, (dword >> 64) as u64, 0]);
+            cover();
+        }
+    };
+}
+vk_fmt_p2_dword_write!(vk_int_fmt_p2_dword_write_r16_w17, 16, 4, DigitCase::Lower, false, 17);
+vk_fmt_p2_dword_write!(vk_int_fmt_p2_dword_write_r32_w26, 32, 5, DigitCase::Upper, true, 26);
+vk_fmt_p2_dword_write!(vk_int_fmt_p2_dword_write_r8_w43, 8, 3, DigitCase::NoLetters, false, 43);
 
 // 3 words: low words symbolic, top word concrete (the number of digits -- hence every loop bound and buffer offset of
 // the writer -- depends only on the top word)
